@@ -19,7 +19,8 @@ enum Role { ADMIN USER GUEST }
 input Filter { q: String = "x", min: Int, roles: [Role!] = [USER], nested: Filter, req: Boolean!, ids: [ID] }
 input Pick @oneOf { byId: ID, byName: String, byFilter: Filter }
 type Query { me: User node(id: ID!): Node named: [Named] search(term: String!, limit: Int = 3): [SearchResult!] nnMe: User!
-  users: [User!] echo(i: Int, o: Filter, l: [Int!], nn: [Int!]! = [1]): String pets: [Pet] }
+  users: [User!] echo(i: Int, o: Filter, l: [Int!], nn: [Int!]! = [1]): String pets: [Pet]
+  byPick(p: Pick!, l: [Pick!], d: Pick = {byId: 1}): String }
 type Mutation { setName(name: String!): User bump(by: Int = 1): Int rename(id: ID!, to: String = "x"): Named echo(i: Int): String }
 type Subscription { userEvents(kind: Role = USER): User ticks: Int namedEvents: Named }
 '''
@@ -56,3 +57,17 @@ def rich_inc():
     if 'rich_inc' not in _cache:
         _cache['rich_inc'] = with_incremental(rich())
     return _cache['rich_inc']
+
+
+def rich_is_type_of(is_type_of_factory):
+    """A fresh copy of the rich schema in which every object type has an is_type_of function (made by the factory from
+    the type name) - the route the default type resolver takes when values carry no __typename."""
+    key = ('rich_is_type_of', id(is_type_of_factory))
+    if key not in _cache:
+        s = build_schema(RICH_SDL)
+        from graphql import is_object_type
+        for name, t in s.type_map.items():
+            if is_object_type(t) and not name.startswith('__') and name not in ('Query', 'Mutation', 'Subscription'):
+                t.is_type_of = is_type_of_factory(name)
+        _cache[key] = s
+    return _cache[key]
